@@ -648,6 +648,29 @@ theorem progress {c : Cfg σ ρ} (hcap : 0 < c.cap) {s : State σ ρ} (hb : Basi
         | done => exact Or.inr (Or.inr (Or.inl ⟨.join, rfl, by simp [next, hrd, ht, hr]⟩))
         | panicked => exact Or.inr (Or.inr (Or.inl ⟨.join, rfl, by simp [next, hrd, ht, hr]⟩))
 
+/-- in the read loop the reader holds at most one unsent row -/
+theorem outq_step {c : Cfg σ ρ} (s : State σ ρ) (l : Label) (s' : State σ ρ)
+    (hi : s.reader = .running → s.outq.length ≤ 1) (h : next c s l = some s') :
+    s'.reader = .running → s'.outq.length ≤ 1 := by
+  cases l
+  case readLine =>
+    simp only [next] at h
+    (repeat' split at h) <;> try contradiction
+    · cases h; intro _; exact toList_length_le _
+    · cases h; intro _; exact toList_length_le _
+  all_goals
+    simp only [next] at h
+    (repeat' split at h) <;>
+    first
+    | contradiction
+    | (cases h; simp_all <;> omega)
+    | (cases h; simp_all)
+
+theorem reach_outq {c : Cfg σ ρ} {s : State σ ρ} (h : Reachable c s) :
+    s.reader = .running → s.outq.length ≤ 1 :=
+  inv_reachable (P := fun s => s.reader = .running → s.outq.length ≤ 1) (by simp [init])
+    outq_step s h
+
 /-! ### termination -/
 
 /-- one step of one of the two threads -/
